@@ -445,9 +445,14 @@ def case(ctx, idx, res):
             tgt = r.choice(['stream', 'stream', 'dom', 'callback'])
             if tgt == 'callback':
                 src, sty = ('stream', 'stream') if r.random() < 0.5 else ('parsed', 'compiled')
-            rp = d.call(cmd='transform', t=t, src=src, sty=sty, tgt=tgt, xml=xml.encode('utf-8', 'surrogateescape'), xsl=xsl.encode('utf-8', 'surrogateescape'))
+            extra = {}
+            if tgt == 'callback' and r.random() < 0.4:
+                # the target refuses the data after so many bytes: the failure of the sink meets whatever the hostile input does to the transformation
+                extra['cbfail'] = str(r.choice([0, 1, 7, 64, 600]))
+                res.count('refusing_callbacks')
+            rp = d.call(cmd='transform', t=t, src=src, sty=sty, tgt=tgt, xml=xml.encode('utf-8', 'surrogateescape'), xsl=xsl.encode('utf-8', 'surrogateescape'), **extra)
             res.evals += 1
-            check_reply(res, rp, 'transformation (%s, %s -> %s)' % (src, sty, tgt), dict(payload, src=src), kind)
+            check_reply(res, rp, 'transformation (%s, %s -> %s%s)' % (src, sty, tgt, ' refusing after %s bytes' % extra['cbfail'] if extra else ''), dict(payload, src=src, **extra), kind)
         # monitor (b): the transformer is still usable
         ctx.cache['since'] += 1
         if kind not in ('xpath-entry', 'capi', 'serializer-garbage'):
